@@ -1729,10 +1729,20 @@ class Exec:
         if g.ifs:
             raise Unsupported('filter in comprehension over symbolic sequence (line %d)' % node.lineno)
 
+        if not self.spec_mode:
+            # obligations of the element expression, once, for an arbitrary index of the sequence
+            s0 = st.copy()
+            k0 = z3.Int(fresh_name('elt'))
+            s0.assume(z3.And(k0 >= 0, k0 < to_int(ln)))
+            self.assign(g.target, item(k0), s0)
+            self.eval(node.elt, s0)
+
+        snap = st.copy()              # the comprehension is evaluated now: later updates of the state must not leak in
+
         def get(i):
-            s = st.copy()
+            s = snap.copy()
             self.assign(g.target, item(i), s)
-            self.spec_mode += 1       # element obligations are not emitted per symbolic element
+            self.spec_mode += 1       # (obligations were emitted above for an arbitrary element)
             try:
                 return self.eval(node.elt, s)
             finally:
@@ -1825,6 +1835,8 @@ class Exec:
         if isinstance(f, BoundMethod):
             return lib.call_method(self, st, f.obj, f.name, args, kwargs, node)
         if isinstance(f, Opaque):
+            if f.name.startswith('class:') and ('ctor:' + f.name[6:]) in self.contract.ghosts:
+                return self.contract.ghosts['ctor:' + f.name[6:]](self, st, *args, **kwargs)
             if f.name.startswith('func:'):
                 return self.call_user(f, args, kwargs, st, node)
             return lib.call_lib(self, st, f.name, args, kwargs, node)
